@@ -265,11 +265,12 @@ PROPS["C14"] = dict(
            "echo filter: every echo of 0..=16 bytes, any clocks; Kalman: one update from |x|,|v| <= 1e6, covariances in [0,1e6], sample 1..10000 ms",
     stubs=["RttTracker::update_estimate -> sample recorder (c14_echo_filter only; the real estimator is run in c14_smooth_rtt_sane)"],
     assumptions=["clock values <= 2^48 ms", "Kalman pre-state bounded and covariance entries non-negative (stated bound)"],
-    outside="the cadence clause (gap between keepalives <= two housekeeping periods) is a property of the housekeeping loop + tokio timer; its "
-            "per-tick part is decided by the shell harness when present. Echo bytes after byte 16 are ignored by the parser (bound: 16 bytes).",
+    outside="the cadence clause is decided for its per-tick part only (c14_cadence_ticks: the keepalive statements of a housekeeping pass in call-site order, passes <= 1000 ms apart); "
+            "the tokio interval firing every 1000 ms, timer jitter and the socket send are I/O and outside the claim. Echo bytes after byte 16 are ignored by the parser (bound: 16 bytes).",
     harnesses=[
         H("c14::c14_keepalive_frame", "core", desc="38-byte frame, literal layout, telemetry = link state, probe arming"),
         H("c14::c14_need_predicates", "core", desc="needs_keepalive / needs_rtt_measurement equal their rules"),
+        H("c14::c14_cadence_ticks", "core", desc="two housekeeping passes <= 1000 ms apart over a connected link (keepalive statements in call-site order, arbitrary sends in between): last keepalive < 1 period old after each pass, gap between consecutive keepalives < 2 periods"),
         H("c14::c14_echo_filter", "core", desc="sample only from an outstanding probe's echo with 0 < RTT <= 10 s; duplicates ignored"),
         H("c14::c14_smooth_rtt_sane", "core", desc="smoothed RTT >= 0 and finite after a real Kalman update", timeout=1500),
     ],
